@@ -13,6 +13,9 @@ O (the property, evaluated directly on what the implementation did)
     every sleep is a number in [0, backoff_max]; nothing but the transport's own exception or HttpTransientError
     escapes; exchange POSTs <= 1 (+1 only right after a 413), cancel POSTs <= 1; an accepted configuration has
     finite bounds >= 0.
+    F  re-entrant API use: `on_log` (which runs while exchange() / iteration / next_with_token() / cancel() reads a
+       response) calls cancel() / close() on the same session, followed by more operations and routine cancel()s; POSTs
+       are counted per logical request (one exchange() call; the cancel of one stream).
     E  real sockets: what the installed httpx2 raises for "peer closed before any byte" / "closed mid-response" /
        refused / timed out is classified as the model's fault alphabet says.
 
@@ -42,6 +45,7 @@ from vgi_rpc.http import _client as C
 from vgi_rpc.http import _retry as R
 from vgi_rpc.http import http_connect, make_sync_client
 from vgi_rpc.http._testing import _SyncTestResponse
+from vgi_rpc.log import Level
 from vgi_rpc.rpc import (
     AnnotatedBatch,
     CallContext,
@@ -66,6 +70,7 @@ OBLIGATIONS = [
     "VgiVerif.C38.C38_outcome",
     "VgiVerif.C38.C38_once_exchange",
     "VgiVerif.C38.C38_once_cancel",
+    "VgiVerif.C38.C38_cancel_idempotent",
     "VgiVerif.C38.C38_sites",
     "VgiVerif.C38.C38_client",
     "VgiVerif.C38.C38_client_noretry",
@@ -94,6 +99,9 @@ RULE = (
     "extended only while the implementation consumed all of it: longer sequences behave like their consumed prefix), "
     "plus sweeps over every status 100..599, every httpx2 exception class and every header spelling; D: every script of "
     "length <= 3 over a call-site alphabet x {no retry config, configs} x {415 refresh yes/no} x {externalize ok/fails}; "
+    "F: every operation sequence of length <= 2 (thorough 3) over {exchange | next / next_with_token, cancel, close} + two "
+    "routine cancels x on_log action {none, cancel, close, cancel twice, cancel+close} fired at the 1st / 2nd log x server "
+    "on_cancel logging or not, for an exchange stream and a producer stream whose turns log before their data; "
     "a case is non-trivial when at least one fault is injected; distinct by (part, config, script, jitter)"
 )
 PARTIAL = [
@@ -1145,6 +1153,212 @@ def run_sites(ctx: Any, pin: Pin) -> None:
         sites.close()
 
 
+# ------------------------------------------------------------------------------------------------ F: re-entrant API use
+
+# The client API is used from inside its own callbacks: `on_log` runs while `exchange()` / iteration / `next_with_token()`
+# / `cancel()` is still reading a response, and may itself call `cancel()` / `close()` on the same session.  POSTs are
+# counted per *logical request*: every `session.exchange(batch)` call is one request (data POSTs during it <= 1), and
+# the cancel of one stream is one request (POSTs carrying `vgi_rpc.cancel` over the whole life of the session <= 1,
+# however often and from wherever `cancel()` is called).
+
+ON_CANCEL_CALLS: list[str] = []
+
+
+@dataclass
+class LogScaleState(ExchangeState):
+    factor: float
+    cancel_logs: bool = False
+
+    def exchange(self, input: AnnotatedBatch, out: OutputCollector, ctx: CallContext) -> None:
+        out.client_log(Level.WARN, "pre-data log")  # dispatched by the client before it stores the new state token
+        out.emit_arrays([pc.multiply(input.batch.column("value"), self.factor)])
+
+    def on_cancel(self, ctx: CallContext) -> None:
+        ON_CANCEL_CALLS.append("scale")
+        if self.cancel_logs:
+            ctx.client_log(Level.INFO, "cancelled")  # delivered to on_log while cancel() reads its response
+
+
+@dataclass
+class LogGenState(ProducerState):
+    count: int
+    cancel_logs: bool = False
+    current: int = 0
+
+    def produce(self, out: OutputCollector, ctx: CallContext) -> None:
+        if self.current >= self.count:
+            out.finish()
+            return
+        out.client_log(Level.WARN, "pre-data log")
+        out.emit_pydict({"i": [self.current]})
+        self.current += 1
+
+    def on_cancel(self, ctx: CallContext) -> None:
+        ON_CANCEL_CALLS.append("gen")
+        if self.cancel_logs:
+            ctx.client_log(Level.INFO, "cancelled")
+
+
+class LogSvc(Protocol):
+    def lscale(self, factor: float, cancel_logs: bool) -> Stream[LogScaleState]: ...
+    def lgen(self, count: int, cancel_logs: bool) -> Stream[LogGenState]: ...
+
+
+class LogImpl:
+    def lscale(self, factor: float, cancel_logs: bool) -> Stream[LogScaleState]:
+        sch = pa.schema([("value", pa.float64())])
+        return Stream(output_schema=sch, state=LogScaleState(factor, cancel_logs), input_schema=sch)
+
+    def lgen(self, count: int, cancel_logs: bool) -> Stream[LogGenState]:
+        return Stream(output_schema=pa.schema([("i", pa.int64())]), state=LogGenState(count, cancel_logs))
+
+
+class CountingClient:
+    """Pass-through client that attributes every POST to the API operation in progress."""
+
+    def __init__(self, real: Any) -> None:
+        self.real = real
+        self.prefix = getattr(real, "prefix", "")
+        self.op: int | None = None  # index of the outermost API operation in progress
+        self.posts: list[dict[str, Any]] = []
+
+    def post(self, url: str, *, content: bytes, headers: dict[str, str]) -> Any:
+        self.posts.append({"op": self.op, "exchange_url": url.endswith("/exchange"), "cancel": b"vgi_rpc.cancel" in content})
+        return self.real.post(url, content=content, headers=headers)
+
+    def options(self, url: str, **kw: Any) -> Any:
+        return self.real.options(url, **kw)
+
+    def close(self) -> None:
+        pass
+
+
+CB_ACTIONS = ["none", "cancel", "close", "cancel2", "cancel_close"]
+
+
+def exec_reentrant(real: Any, case: dict[str, Any]) -> dict[str, Any]:
+    cc = CountingClient(real)
+    holder: dict[str, Any] = {"logs": 0, "fired": False}
+    cb = case["cb"]
+    ON_CANCEL_CALLS.clear()
+
+    def on_log(_msg: Any) -> None:
+        holder["logs"] += 1
+        sess = holder.get("session")
+        if sess is None or holder["fired"] or holder["logs"] < cb["at"] or cb["action"] == "none":
+            return
+        holder["fired"] = True
+        for act in {"cancel": ["c"], "close": ["l"], "cancel2": ["c", "c"], "cancel_close": ["c", "l"]}[cb["action"]]:
+            if act == "c":
+                sess.cancel()
+            else:
+                sess.close()
+
+    errors: list[str] = []
+    with http_connect(LogSvc, client=cc, on_log=on_log, compression_level=None) as proxy:  # type: ignore[arg-type]
+        if case["stream"] == "exchange":
+            session = proxy.lscale(factor=2.0, cancel_logs=case["cancel_logs"])
+        else:
+            session = proxy.lgen(count=6, cancel_logs=case["cancel_logs"])
+        holder["session"] = session
+        it = None
+        for k, op in enumerate(case["ops"]):
+            cc.op = k
+            try:
+                if op == "x":
+                    session.exchange(AnnotatedBatch(batch=pa.record_batch({"value": [1.5]})))
+                elif op == "n":
+                    if it is None:
+                        it = iter(session)
+                    next(it, None)
+                elif op == "t":
+                    session.next_with_token()
+                elif op == "c":
+                    session.cancel()
+                elif op == "l":
+                    session.close()
+            except RpcError:
+                pass  # e.g. exchange() on a cancelled stream
+            except StopIteration:
+                pass
+            except Exception as e:  # noqa: BLE001
+                errors.append(f"{op}@{k}:{type(e).__name__}")
+            finally:
+                cc.op = None
+    return {"posts": cc.posts, "on_cancel": len(ON_CANCEL_CALLS), "errors": errors, "logs": holder["logs"], "fired": holder["fired"]}
+
+
+def check_reentrant(ctx: Any, real: Any, case: dict[str, Any]) -> None:
+    obs = exec_reentrant(real, case)
+    posts = obs["posts"]
+    cancels = [p for p in posts if p["cancel"]]
+    ctx.case(case, nontrivial=obs["fired"] or "c" in case["ops"],
+             tags=("part:reentrant", f"stream:{case['stream']}", f"cb:{case['cb']['action']}", f"cb-fired:{obs['fired']}",
+                   f"cancel-posts:{len(cancels)}"))
+    if len(cancels) > 1 or obs["on_cancel"] > 1:
+        where = "callback" if obs["fired"] and case["cb"]["action"] != "none" else "plain"
+        _fail(ctx, case, f"C38:reentrant:cancel-sent-more-than-once:{case['stream']}:{where}",
+              f"{len(cancels)} cancel POSTs for one stream (server on_cancel ran {obs['on_cancel']} times); ops {case['ops']}, "
+              f"on_log action {case['cb']}")
+    for k, op in enumerate(case["ops"]):
+        if op == "x":
+            n = sum(1 for p in posts if p["op"] == k and p["exchange_url"] and not p["cancel"])
+            if n > 1:
+                _fail(ctx, case, f"C38:reentrant:exchange-sent-more-than-once:{case['stream']}",
+                      f"exchange() number {k} POSTed its batch {n} times without a 413")
+    for e in obs["errors"]:
+        ctx.tag(f"reentrant-exception:{e.split(':')[-1]}")
+
+
+class ReentrantClients:
+    """Exchange streams: uncapped responses (log + data in one response).  Producer streams: one batch per response
+    (`next_with_token` requires it; every `next()` then is a continuation POST whose response starts with a log)."""
+
+    def __init__(self) -> None:
+        self.server = RpcServer(LogSvc, LogImpl())
+        self.by_stream = {"exchange": make_sync_client(self.server, token_key=b"k" * 32),
+                          "producer": make_sync_client(self.server, token_key=b"k" * 32, max_stream_response_bytes=1)}
+
+    def close(self) -> None:
+        for c in self.by_stream.values():
+            c.close()
+
+
+def run_reentrant(ctx: Any) -> None:
+    rng = ctx.rng
+    clients = ReentrantClients()
+    real = clients.by_stream
+    try:
+        cases: list[dict[str, Any]] = []
+        # hand-written corpus first: cancel from on_log during an exchange / an iteration, then routine cleanup
+        for stream, first in (("exchange", "x"), ("producer", "n"), ("producer", "t")):
+            for action in ("cancel", "cancel2"):
+                cases.append({"part": "reentrant", "stream": stream, "ops": [first, "c", "c"], "cb": {"action": action, "at": 1},
+                              "cancel_logs": False})
+        alpha = {"exchange": ["x", "c", "l"], "producer": ["n", "t", "c", "l"]}
+        maxlen = 3 if ctx.tier == "thorough" or ctx.deep else 2
+        for stream, ops in alpha.items():
+            seqs: list[tuple[str, ...]] = []
+            for n in range(1, maxlen + 1):
+                seqs += list(itertools.product(ops, repeat=n))
+            for seq in seqs:
+                for action in CB_ACTIONS:
+                    for at in (1, 2):
+                        if action == "none" and at == 2:
+                            continue
+                        cases.append({"part": "reentrant", "stream": stream, "ops": list(seq) + ["c", "c"],
+                                      "cb": {"action": action, "at": at}, "cancel_logs": rng.random() < 0.5})
+        budget = ctx.budget(500, 6000)
+        if len(cases) > budget:
+            head, rest = cases[:6], cases[6:]
+            rng.shuffle(rest)
+            cases = head + rest[: budget - 6]
+        for cs in cases:
+            check_reentrant(ctx, real[cs["stream"]], cs)
+    finally:
+        clients.close()
+
+
 # ------------------------------------------------------------------------------------------------ E: real sockets
 
 
@@ -1278,6 +1492,7 @@ def run(ctx: Any) -> None:
         run_delay(ctx, pin)
         run_loop(ctx, pin)
         run_sites(ctx, pin)
+    run_reentrant(ctx)
     run_sockets(ctx)
     ctx.exhaustive = False
 
@@ -1303,6 +1518,12 @@ def replay(ctx: Any, case: dict[str, Any]) -> None:
                 check_site(ctx, sites, case, m)
             finally:
                 sites.close()
+        elif part == "reentrant":
+            clients = ReentrantClients()
+            try:
+                check_reentrant(ctx, clients.by_stream[case["stream"]], case)
+            finally:
+                clients.close()
         elif part == "socket":
             run_sockets(ctx)
         else:
